@@ -722,3 +722,58 @@ Proof.
                 end; cbn [fst snd]; unfold upd; rewrite ?Hm; reflexivity).
   exfalso. eapply Ht. reflexivity.
 Qed.
+
+(* ------------------------------------------------------------------------------------------ *)
+(* snapshots of composite values                                                               *)
+(* ------------------------------------------------------------------------------------------ *)
+
+(* what Get / GetList / GetAllHash return is the value the key holds in the store at the instant of the call's (first)
+   critical section — whole, not assembled from several instants.  Together with linearizable_all_schedules: a snapshot
+   equals the store value at one instant between call and return. *)
+Theorem snapshot_is_store_value D m now k :
+  fst (fst (mem_step D repaired m now (KGet k)))
+    = match live now (m k) with Some it => OVal (val it) | None => ONotFound end
+  /\ fst (fst (mem_step D repaired m now (KGetList k)))
+    = match live now (m k) with
+      | Some it => match val it with VList l => OVal (VList l) | _ => OInvalidType end
+      | None => ONotFound
+      end
+  /\ fst (read_phase repaired m now (KGetAllHash k))
+    = match live now (m k) with
+      | Some it => match val it with VHash h => OVal (VHash h) | _ => OInvalidType end
+      | None => ONotFound
+      end.
+Proof.
+  cbn [mem_step read_phase fst]. unfold live.
+  destruct (m k) as [it|]; [destruct (expired now it)|]; cbn [fst]; repeat split; reflexivity.
+Qed.
+
+(* copy after unlock: caller 0 plants {a:0, b:0} and Gets it; caller 1 runs SetHash(a,1); SetHash(b,1).
+   schedule 0 0 | 0 = Get looks the hash up | 0 = copies a (0) | 1 1 = both SetHash | 0 = copies b (1) | 0 = returns {a:0, b:1} *)
+Definition fa : key := [97].
+Definition fb : key := [98].
+Definition torn_progs : list (list op) :=
+  [[KSetHash kA fa (SInt 0); KSetHash kA fb (SInt 0); KGet kA]; [KSetHash kA fa (SInt 1); KSetHash kA fb (SInt 1)]].
+Definition torn_sched : list nat := [0; 0; 0; 0; 1; 1; 0; 0]%nat.
+Definition torn_log : list (op * out) :=
+  sh_log (fst (run shared local4 (tstep_copy_after_unlock DAY repaired) (init4 1000 torn_progs) torn_sched)).
+
+Lemma copy_after_unlock_refuted : ~ legal DAY 1000 torn_log.
+Proof. unfold legal. vm_compute. intros H. discriminate H. Qed.
+
+(* the snapshot returned is a value the key never held *)
+Lemma torn_snapshot_never_stored :
+  In (KGet kA, OVal (VHash [(fa, SInt 0); (fb, SInt 1)])) torn_log
+  /\ ~ In (VHash [(fa, SInt 0); (fb, SInt 1)])
+          [VHash [(fa, SInt 0)]; VHash [(fa, SInt 0); (fb, SInt 0)]; VHash [(fa, SInt 1); (fb, SInt 0)]; VHash [(fa, SInt 1); (fb, SInt 1)]].
+Proof.
+  split.
+  - vm_compute. repeat (try (left; reflexivity); right).
+  - cbn [In]. intros H. repeat (destruct H as [H|H]; [discriminate H|]). exact H.
+Qed.
+
+(* the same programs and schedule with the copy inside the read's critical section *)
+Lemma copy_under_lock_same_schedule :
+  map snd (sh_log (fst (run shared local (tstep DAY repaired) (init 1000 torn_progs) torn_sched)))
+  = [OOk; OOk; OVal (VHash [(fa, SInt 0); (fb, SInt 0)]); OOk; OOk].
+Proof. vm_compute. reflexivity. Qed.
